@@ -634,7 +634,7 @@ V("C12", "instance_param_shares_mutable_slots", "fire", "R12.c", (Z, """        
     return p""", """        if _is_mutable_container(v) and s != "default":
             pass
     return p"""))
-V("C12", "instantiate_params_not_deepcopied", "fire", "R12.e", (Z, """        for p in params_to_deepcopy.values():
+V("C12", "instantiate_params_not_deepcopied", "fire", "R12.k", (Z, """        for p in params_to_deepcopy.values():
             self_._instantiate_param(p)
 """, """        for p in params_to_deepcopy.values():
             self_._instantiate_param(p, deepcopy=False)
@@ -970,7 +970,7 @@ V("C19", "hash_and_seed_memoised", "fire", "R19.a", (N, """        hashval = sel
         self._seeded_for = key
 """))
 V("C12", "empty_containers_not_recopied", "fire", "R12.c", (Z, '        if _is_mutable_container(v) and s != "default":\n            setattr(p, s, copy.copy(v))', '        if v and _is_mutable_container(v) and s != "default":\n            setattr(p, s, copy.copy(v))'))
-V("C14", "constants_with_none_default_not_referenced", "fire", "R14.d", (Z, "            elif p.constant and pname != 'name':", "            elif p.constant and pname != 'name' and p.default is not None:"))
+V("C14", "constants_with_none_default_not_referenced", "fire", "R14.k", (Z, "            elif p.constant and pname != 'name':", "            elif p.constant and pname != 'name' and p.default is not None:"))
 V("C14", "outer_guard_ignores_readonly", "fire", "R14.a", (Z, "        if self.constant or self.readonly:\n            if self.readonly:", "        if self.constant:\n            if self.readonly:"))
 V("C04", "dedup_by_equality", "fire", "R04.c", (Z, "            if not any(watcher is w for w in self_._state_watchers):", "            if watcher not in self_._state_watchers:"))
 V("C08", "syncing_scope_no_finally", "fire", "R08.c", (Z, """    parameterized._param__private.syncing = set(old) | set(parameters)
@@ -1451,3 +1451,27 @@ V("C09", "benign_invalidate_current_positive_form", "benign", None, (R, """     
         self._error_state = None""", """        if not all(event.obj is self._trigger for event in events):
             self._dirty = True
             self._error_state = None"""))
+
+# constructor model
+V("C12", "ctor_copies_only_parameters_without_keyword", "fire", "R12.k", (Z, """            if p.instantiate and pname != "name":
+                params_to_deepcopy[pname] = p""", """            if p.instantiate and pname != "name" and pname not in params:
+                params_to_deepcopy[pname] = p"""))
+V("C14", "ctor_pins_only_truthy_constants", "fire", "R14.k", (Z, """            elif p.constant and pname != 'name':
+                params_to_ref[pname] = p""", """            elif p.constant and pname != 'name' and p.default:
+                params_to_ref[pname] = p"""))
+V("C08", "ctor_records_refs_only_when_assigned", "fire", "R08.k", (Z, """            if ref is not None:
+                refs[name] = ref
+                deps[name] = ref_deps
+            if not is_async and not (resolved is Undefined or resolved is Skip):
+                setattr(self, name, resolved)""", """            if not is_async and not (resolved is Undefined or resolved is Skip):
+                setattr(self, name, resolved)
+                if ref is not None:
+                    refs[name] = ref
+                    deps[name] = ref_deps"""))
+V("C12", "benign_ctor_single_loop_two_lists", "benign", None, (Z, """        for p in params_to_deepcopy.values():
+            self_._instantiate_param(p)
+        for p in params_to_ref.values():
+            self_._instantiate_param(p, deepcopy=False)""", """        for p in list(params_to_deepcopy.values()):
+            self_._instantiate_param(p, deepcopy=True)
+        for p in list(params_to_ref.values()):
+            self_._instantiate_param(p, deepcopy=False)"""))
